@@ -517,6 +517,40 @@ impl<'a, 'tcx> BodyCx<'a, 'tcx> {
     }
 }
 
+fn const_value_json<'tcx>(tcx: TyCtxt<'tcx>, val: mir::ConstValue, ty: Ty<'tcx>, depth: usize) -> J {
+    if depth > 4 {
+        return J::Null;
+    }
+    match ty.kind() {
+        ty::Int(_) | ty::Uint(_) | ty::Bool | ty::Char => {
+            if let Some(si) = val.try_to_scalar_int() {
+                let signed = matches!(ty.kind(), ty::Int(_));
+                let v: i128 = if signed { si.to_int(si.size()) } else { si.to_bits(si.size()) as i128 };
+                return J::Int(v);
+            }
+            J::Null
+        }
+        ty::Ref(_, inner, _) if matches!(inner.kind(), ty::Str) => {
+            if let mir::ConstValue::Slice { .. } | mir::ConstValue::Indirect { .. } = val {
+                if let Some(b) = val.try_get_slice_bytes_for_diagnostics(tcx) {
+                    return J::s(String::from_utf8_lossy(b).to_string());
+                }
+            }
+            J::Null
+        }
+        ty::Array(..) | ty::Tuple(..) => {
+            let d = std::panic::catch_unwind(std::panic::AssertUnwindSafe(|| {
+                tcx.try_destructure_mir_constant_for_user_output(val, ty)
+            }));
+            if let Ok(Some(d)) = d {
+                return J::Arr(d.fields.iter().map(|(v, t)| const_value_json(tcx, *v, *t, depth + 1)).collect());
+            }
+            J::Null
+        }
+        _ => J::Null,
+    }
+}
+
 fn vis_s(tcx: TyCtxt<'_>, did: DefId) -> String {
     match tcx.visibility(did) {
         ty::Visibility::Public => "pub".into(),
@@ -575,6 +609,14 @@ fn dump_crate<'tcx>(tcx: TyCtxt<'tcx>) -> Vec<(&'static str, J)> {
             v.push(("parent", J::s(tcx.def_path_str(tcx.typeck_root_def_id(did)))));
         }
         v.push(("body", cx.dump()));
+        // promoted constants of this body (e.g. `&SHELL[1..]` promotes a copy of SHELL)
+        let promoted = tcx.promoted_mir(did);
+        let mut pv = vec![];
+        for pb in promoted.iter() {
+            let pcx = BodyCx { tcx, body: pb, env };
+            pv.push(pcx.dump());
+        }
+        v.push(("promoted", J::Arr(pv)));
         fns.push(J::Obj(v));
     }
 
@@ -648,7 +690,27 @@ fn dump_crate<'tcx>(tcx: TyCtxt<'tcx>) -> Vec<(&'static str, J)> {
             _ => {}
         }
     }
-    vec![("fns", J::Arr(fns)), ("adts", J::Arr(adts)), ("impls", J::Arr(impls))]
+    // local `const` items with plain values (integers, &str, arrays/tuples of those)
+    let mut consts = vec![];
+    for ldid in tcx.hir_crate_items(()).definitions() {
+        let did = ldid.to_def_id();
+        if !matches!(tcx.def_kind(did), DefKind::Const { .. } | DefKind::AssocConst { .. }) {
+            continue;
+        }
+        if tcx.generics_of(did).requires_monomorphization(tcx) {
+            continue;
+        }
+        let ty = tcx.type_of(did).instantiate_identity().skip_norm_wip();
+        let val = std::panic::catch_unwind(std::panic::AssertUnwindSafe(|| tcx.const_eval_poly(did)));
+        if let Ok(Ok(val)) = val {
+            consts.push(J::Obj(vec![
+                ("path", J::s(tcx.def_path_str(did))),
+                ("ty", J::s(ty_s(ty))),
+                ("value", const_value_json(tcx, val, ty, 0)),
+            ]));
+        }
+    }
+    vec![("fns", J::Arr(fns)), ("adts", J::Arr(adts)), ("impls", J::Arr(impls)), ("consts", J::Arr(consts))]
 }
 
 impl rustc_driver::Callbacks for Cb {
